@@ -69,7 +69,7 @@ ActsOf(op) ==
 
 Do(a) ==
   /\ ~done /\ Enabled(st, a)
-  /\ (a.op \in {"Open", "InReq"} /\ a.r \in PoolSet \cup {""} => st.nreq + (IF st.opn.active THEN 1 ELSE 0) < MaxReq)
+  /\ (a.op \in {"Open", "InReq"} /\ a.r \in PoolSet \cup {""} => st.nreq < MaxReq)
   /\ (Len0 > 0 => Len(hist) < Len0)
   /\ LET e == Step(st, a) IN
        /\ st' = e.s
